@@ -7,6 +7,13 @@ PY = "/venv/bin/python"
 
 # property id -> (design section, technique, level text, level note)
 BUILT = {
+    "C04": ("§4.4", "exhaustive history search over file-class sequences (length 0..4) x argument modes through the "
+            "real main(), against a 6-line reference model of verdicts and exit status",
+            "All 340 class sequences as explicit paths, all multisets as a directory / as cwd and the empty selections "
+            "are run through main() in process (short ones and failures also as a real subprocess); verdict lines must "
+            "equal the model's for exactly the analysed files, in order; exit status 0 iff every selected file is OK.",
+            "Trusts the reference model (isolated verdict of each file) and that in-process main() equals the command "
+            "(cross-checked against a subprocess on every sequence of length <= 2)."),
     "C03": ("§4.3", "exhaustive enumeration of every (limit, context) chain n = L-3..L+6 on the real pipeline with an "
             "iff oracle computed by the reference model",
             "For each of the five limits every generated context (line kind x position x tab mix; body shape x "
